@@ -2,6 +2,9 @@
 EXTENDS SDArray
 ShapesMC == {<<2>>, <<0, 2>>, <<2, 2>>}
 LayoutsMC == {<<"contig">>}
+ShapesChunkMC == {<<2, 3>>}
+LayoutsChunkMC == {<<"chunk", 1, 2, 1>>, <<"chunk", 2, 2, 1>>, <<"contig">>}
 StartsMC == {-1, 0, 1}
+StartsTypes == {0, 1}
 StartsGen == {-1, 0, 1, 2, 3}
 =============================================================================
